@@ -23,6 +23,20 @@ CHECKS = {
         design='C20'),
 }
 
+CHECKS['C13'] = dict(
+    text='Theorems C13_segment_coherent / C13_ondemand_coherent (every header string, every resource length, any int() '
+         'conversion that is non-negative on dash-free strings: the response is 200-full / 400 / 206 with 0<=a<=b<len, '
+         'body = full[a:b+1] and Content-Range a-b/len / 416 with empty body and bytes */len; never a crash) and '
+         'C13_rfc7233_{first_last,first_only,suffix} (exact RFC 7233 slice for the three well-formed forms) about a '
+         'transcription of get_http_range and its two call sites; tied to /repo by differential runs at function level '
+         '(grid + malformed strings) and over HTTP on a generated-segment route and the on-demand file route.',
+    note=TB + 'Python int(), str.lower()/strip() and Flask header delivery are library behaviour (int() is a parameter of '
+         'the theorems; the executable instance used in the correspondence is proved to satisfy the hypothesis); '
+         'harness/shims stand-ins are used to import the handlers.',
+    technique='Coq proof (case analysis over the parser, all strings) + differential correspondence (function level and HTTP) '
+              '+ independent RFC 7233 oracle for the violation search',
+    design='C13')
+
 NOT_YET = {
 }
 
